@@ -6,7 +6,8 @@
     Property theorems only; proofs are in Proofs/Html*.v. *)
 From Coq Require Import List ZArith NArith Bool String.
 From RG Require Import Base.Str Base.Num Gen.GenTemplates Model.Recipe Model.Table Model.Units Model.Html Model.HtmlTok
-  Proofs.HtmlEscape Proofs.HtmlTemplates Proofs.HtmlTag Proofs.HtmlCells Proofs.HtmlAlpha.
+  Proofs.HtmlEscape Proofs.HtmlTemplates Proofs.HtmlTag Proofs.HtmlCells Proofs.HtmlAlpha
+  Proofs.HtmlText Proofs.HtmlCellText Proofs.HtmlInert.
 Import ListNotations.
 
 (** ** Text *)
@@ -76,6 +77,25 @@ Theorem C10_cell_skeleton_partial : forall c prefix h h',
   tag_skeleton (tokenize h) = cell_skel c /\ skel_clean (cell_skel c) = true.
 Proof. exact cell_skeleton_all. Qed.
 Print Assumptions C10_cell_skeleton_partial.
+
+(** The full cell statement: structure AND text.  For every cell (any strings):
+    - the tokens of [render_cell c] have the tag skeleton [cell_skel c], a function of the cell's SHAPE only,
+      equal to the skeleton of the alphabetic twin, with no error token (nothing the user wrote became markup);
+    - the decoded text tokens outside the alternative-unit list are, in order and up to the white space [t]
+      inserts / strips ([sq] deletes [str.isspace] characters), exactly the user's strings interleaved with
+      the number texts: [cell_amount_text] = number, spacing, unit as written, preposition ('*' shown as
+      U+00D7) or remainder wording; [cell_description_text] = the description / output names with their
+      numbers through [format_number] (fraction slash U+2044) - no user character is lost, duplicated or
+      turned into markup.  (The alternative-unit list repeats spacing and canonical unit names: it is
+      specified by [C04_conversion_items].) *)
+Theorem C10_cell_inert : forall c prefix h,
+  val_ok prefix -> render_cell c prefix = Ok h ->
+  tag_skeleton (tokenize h) = cell_skel c /\
+  skel_clean (cell_skel c) = true /\
+  cell_skel (alpha_cell c) = cell_skel c /\
+  sq (visible_text (tokenize h)) = sq (cell_amount_text (hc_value c) ++ cell_description_text (hc_value c)).
+Proof. exact cell_inert. Qed.
+Print Assumptions C10_cell_inert.
 
 (** ** Site templates *)
 (** Every [{{ ... }}] of every template (list generated with Jinja's lexer) is
